@@ -172,32 +172,62 @@ def run(ctx, rep):
         rep.missing("R16.3", ic)
     va = "fastpasta::config::lib::Config::validate_args"
     if va in f.fns:
-        out = ev.collect_ifs(va, [Sym("CFG")])
-        keys = [ckey(o["cond"]) + " | " + " & ".join(o["guard"]) for o in out if "cond" in o]
-        tb = ev.tb(va)
-        n_err = sum(1 for i, n in tb.walk() if n["k"] == "Return")
-        want = {
-            "sanity+its_stave": lambda k: "ITS_Stave" in k and "Sanity" in k,
-            "trigger_period_without_stave_target": lambda k: "check_its_trigger_period" in k and "ITS_Stave" in k,
-            "trigger_period_without_target": lambda k: "check_its_trigger_period" in k and "ITS_Stave" not in k.split("|")[0],
-            "any_errors_exit_code_zero": lambda k: "any_errors_exit_code" in k,
-            "stats_file_missing": lambda k: "is_file" in k,
-            "stats_file_no_extension": lambda k: "extension" in k and ("isSome" in k or "is_none" in k or "isNone" in k),
-            "stats_file_bad_extension": lambda k: "extension" in k and "json" in k.lower() or ("extension" in k and "Ne(" in k),
-        }
-        for nm, pred in want.items():
-            rep.check(any(pred(k) for k in keys), "R16.3", "R16.3|rejects|%s" % nm, "validate_args has a rejecting condition for %s" % nm, va,
-                      "no condition rejecting '%s' found in validate_args" % nm)
-        rep.check(n_err >= 7, "R16.3", "R16.3|err_returns", "validate_args has %d early Err returns" % n_err, va)
-        # -E 0: the closure tests val == 0
-        clo = [k for k in f.fns if k.startswith(va + "::{closure")]
-        okz = False
-        for c_ in clo:
-            tbc = ev.tb(c_)
-            for i, n in tbc.walk():
-                if n["k"] == "Binary" and n["op"] == "Eq" and tbc.node(n["r"]).get("int") == 0:
-                    okz = True
-        rep.check(okz, "R16.3", "R16.3|exit_code_zero_test", "-E 0 is rejected (val == 0)", va)
+        # validate_args decided as a truth table over the option combinations it looks at (the accessors are replaced
+        # by each combination's values): Err exactly for the documented invalid combinations, however the tests are nested
+        from ..thir import Agg as _Agg, Bits as _Bits, Cond as _Cond, vkey as _vkey
+        CC, SYS = "fastpasta::config::check::CheckCommands", "fastpasta::config::check::System"
+        some = lambda x: _Agg("core::option::Option", "Some", {"0": x})
+        none = _Agg("core::option::Option", "None", {})
+        checks = [("none", none, [None])] + [(k_.lower(), some(_Agg(CC, k_, {"0": Sym("ARGS")})), [None, "ITS", "ITS_Stave"]) for k_ in ("Sanity", "All")]
+        stats = [("none", none, None, None), ("missing", some(Sym("PATH")), False, None), ("no-ext", some(Sym("PATH")), True, none)] + \
+                [("ext-" + e_, some(Sym("PATH")), True, some(Sym("str:" + e_))) for e_ in ("json", "toml", "txt", "JSON")]
+        wrong = {}
+        n_rows = 0
+        unevaluable = None
+        for cname, cval, targets in checks:
+            for tgt in targets:
+                for period in (None, 198):
+                    for code in (None, 0, 7):
+                        for sname, sval, isfile, ext in stats:
+                            ev.call_hooks = [
+                                (lambda fn, res: fn.endswith("ChecksOpt::check") or (res or "").endswith("::check") and "config" in (res or ""), lambda n, a, cval=cval: cval),
+                                (lambda fn, res: (res or fn).endswith("CheckCommands>::target"), lambda n, a, tgt=tgt: some(_Agg(SYS, tgt, {})) if tgt else none),
+                                (lambda fn, res: (res or fn).endswith("::check_its_trigger_period"), lambda n, a, period=period: some(_Bits.const(period, 16)) if period else none),
+                                (lambda fn, res: (res or fn).endswith("::any_errors_exit_code"), lambda n, a, code=code: some(_Bits.const(code, 8)) if code is not None else none),
+                                (lambda fn, res: (res or fn).endswith("::input_stats_file"), lambda n, a, sval=sval: sval),
+                                (lambda fn, res: fn.endswith("Path::is_file"), lambda n, a, isfile=isfile: _Cond("true" if isfile else "false")),
+                                (lambda fn, res: fn.endswith("Path::extension"), lambda n, a, ext=ext: ext if ext is not None else none),
+                            ]
+                            try:
+                                r = _vkey(ev.call_fn(va, [Sym("CFG")]))
+                            except Unsupported as e:
+                                unevaluable = str(e)
+                                r = "?"
+                            finally:
+                                ev.call_hooks = []
+                            verdict = "Ok" if r.startswith("Result::Ok(") else ("Err" if r.startswith("Result::Err(") else "?")
+                            reasons = []
+                            if cname == "sanity" and tgt == "ITS_Stave":
+                                reasons.append("sanity+its_stave")
+                            if period and tgt != "ITS_Stave":
+                                reasons.append("trigger_period_without_stave_target" if tgt else "trigger_period_without_target")
+                            if code == 0:
+                                reasons.append("any_errors_exit_code_zero")
+                            if sname == "missing":
+                                reasons.append("stats_file_missing")
+                            if sname == "no-ext":
+                                reasons.append("stats_file_no_extension")
+                            if sname in ("ext-txt", "ext-JSON"):
+                                reasons.append("stats_file_bad_extension")
+                            n_rows += 1
+                            if verdict != ("Err" if reasons else "Ok"):
+                                for rs in (reasons or ["valid_combination_rejected"]):
+                                    wrong.setdefault(rs, []).append("check=%s target=%s period=%s -E=%s stats=%s → %s" % (cname, tgt, period, code, sname, verdict))
+        for nm in ("sanity+its_stave", "trigger_period_without_stave_target", "trigger_period_without_target", "any_errors_exit_code_zero", "stats_file_missing",
+                   "stats_file_no_extension", "stats_file_bad_extension", "valid_combination_rejected"):
+            rep.check(nm not in wrong and unevaluable is None, "R16.3", "R16.3|rejects|%s" % nm,
+                      ("validate_args rejects %s in every combination" % nm) if nm != "valid_combination_rejected" else "validate_args accepts every valid combination (%d combinations evaluated)" % n_rows, va,
+                      "validate_args gives the wrong verdict: %s%s" % (wrong.get(nm, [])[:3], (" — " + unevaluable) if unevaluable else ""))
     else:
         rep.missing("R16.3", va)
 
@@ -212,6 +242,31 @@ def run(ctx, rep):
         for st in tbx.stmts:
             if st.get("k") == "let" and st.get("init") is not None and (st.get("pat") or {}).get("k") == "Bind" and st["pat"].get("sub") is None:
                 inits[st["pat"]["id"]] = st["init"]
+
+        # names bound by a pattern matched against an expression (`match e { Some(x) … }`, `if let Some(x) = e`)
+        def binds_of(pat, acc):
+            if not pat:
+                return acc
+            if pat["k"] == "Bind":
+                acc.append(pat["id"])
+                binds_of(pat.get("sub"), acc)
+            elif pat["k"] == "Deref":
+                binds_of(pat.get("sub"), acc)
+            elif pat["k"] in ("Leaf", "Variant"):
+                for s_ in pat.get("subs", []):
+                    binds_of(s_["p"], acc)
+            elif pat["k"] == "Or":
+                for p_ in pat.get("pats", []):
+                    binds_of(p_, acc)
+            return acc
+        for _, x in tbx.walk():
+            if x["k"] == "Match":
+                for a_ in x["arms"]:
+                    for id_ in binds_of(tbx.arms[a_]["pat"], []):
+                        inits.setdefault(id_, x["scrut"])
+            elif x["k"] == "Let":
+                for id_ in binds_of(x.get("pat"), []):
+                    inits.setdefault(id_, x["e"])
 
         def mentions_ext(i, depth=0):
             for _, x in tbx.walk(i):
